@@ -177,11 +177,59 @@ def gen_history_core(rng, nops, big_ok=True):
             ops.append('co,%d,%s,%d,%d' % (anyclient(), hx(gen_frame(rng, big_ok)), pick_prio(), stamp()))
         else:
             i = anyport()
-            k = rng.choice(['pp', 'pp', 'pm', 'ph', 'pk'])
-            if k in ('pp', 'ph'):
+            k = rng.choice(['pp', 'pp', 'pm', 'ph', 'pk', 'ms', 'ms', 'mi', 'os', 'oi'])
+            if k in ('pp', 'ph', 'ms'):
                 ops.append('%s,%d,%d' % (k, i, pick_prio()))
+            elif k == 'os':
+                ops.append('os,%d,%d' % (rng.randrange(8), pick_prio()))
+            elif k == 'oi':
+                ops.append('oi,%d' % rng.randrange(8))
+            elif k == 'mi':
+                ops.append('mi,%d' % i)
             else:
                 ops.append('%s,%d,%d' % (k, i, rng.choice([0, 1, 1])))
+    return ' '.join(ops)
+
+
+def gen_priority_admin(rng):
+    """Priority administration through the real PortManager (SetPriorityStatic / SetPriorityInherit) on
+    input ports of FULL and STATIC capability and on output ports: inherit -> static with the SAME value the
+    port stores, other values, values > 200, repeated calls; interleaved with frames from two or three
+    sources so that the group and the fan-out priority show the effective priority after every call."""
+    ops = []
+    port_ids = rng.sample(range(8), rng.choice([2, 2, 3]))
+    out_ids = rng.sample(range(8), rng.choice([1, 2]))
+    sink_ids = rng.sample(range(8), rng.choice([0, 1]))
+    setup = [('ai', i) for i in port_ids] + [('ao', i) for i in out_ids] + [('ak', i) for i in sink_ids]
+    rng.shuffle(setup)
+    ops += ['%s,%d' % x for x in setup]
+    ops.append('mode,%d' % rng.choice([0, 0, 1]))
+    stored = {i: 100 for i in port_ids}        # the static value each port stores
+    for i in port_ids:
+        if rng.random() < 0.7:
+            ops.append('pk,%d,1' % i)
+        ops.append('ph,%d,%d' % (i, rng.choice([99, 100, 101, 150, 200, 0, 255])))
+    client = rng.randrange(8)
+    now = rng.randrange(1, 10 ** 7)
+    for _ in range(rng.choice([6, 10, 16])):
+        now += rng.choice([0, 1, 1000, 40000, 500000])
+        r = rng.random()
+        i = rng.choice(port_ids)
+        if r < 0.18:
+            ops.append('mi,%d' % i)
+        elif r < 0.45:
+            v = rng.choice([stored[i], stored[i], stored[i], 100, 99, 101, 200, 201, 255, 0, rng.randrange(256)])
+            ops.append('ms,%d,%d' % (i, v))
+            stored[i] = min(v, 200)
+        elif r < 0.50:
+            ops.append('%s,%d,%d' % (rng.choice(['pk', 'pm']), i, rng.choice([0, 1])))
+        elif r < 0.55:
+            o = rng.choice(out_ids)
+            ops.append(rng.choice(['os,%d,%d' % (o, rng.choice([100, 200, 255, 0])), 'oi,%d' % o]))
+        elif r < 0.9:
+            ops.append('pd,%d,%s,%d,%d' % (i, hx(gen_frame(rng, False) or [1]), now, now))
+        else:
+            ops.append('cd,%d,%s,%d,%d,%d' % (client, hx(gen_frame(rng, False) or [2]), rng.choice([100, 150, 200]), now, now))
     return ' '.join(ops)
 
 
@@ -360,6 +408,8 @@ def gen_cases(rng, tier):
         yield gen_long_silence(rng)
     for k in range(n // 8):
         yield gen_real_sinks(rng)
+    for k in range(n // 8):
+        yield gen_priority_admin(rng)
     # raw struct timeval liveness (TimerAdd carry, timercmp, timerisset) around the 2.5 s boundary and at
     # ages where a fixed-width counter of us / ms / s would wrap
     for k in range(n // 8):
@@ -380,7 +430,7 @@ def nontrivial(payload, md):
 
 RULE = ('random histories (1-40 ops after a random patching prologue) over <=4 input ports, <=3 source clients, '
         '<=3 output ports, <=3 sink clients (each with a scripted WriteDMX/SendDMX return value; in a third of the cases and in a dedicated family the sinks are REAL ola::Client objects over a stub with deferred/partial/never-arriving acks, and in a third there are two universes sharing the clients), SetDMX, both merge modes with switches mid-history; '
-        'very long silences (ages at and inside 2^15..2^33 us/ms/s, i.e. where a fixed-width time counter wraps) in random histories, a long-silence family and the raw timeval cases; housekeeping histories (CleanStaleSourceClients every 10 s, 2-4 runs, clients streaming every 0.5-2.4 s or going silent, another group member updating right after a run); priorities from '
+        'priority administration through the real PortManager::SetPriorityStatic/SetPriorityInherit (same value re-set, >200, FULL/STATIC capability, input and output ports) interleaved with data; very long silences (ages at and inside 2^15..2^33 us/ms/s, i.e. where a fixed-width time counter wraps) in random histories, a long-silence family and the raw timeval cases; housekeeping histories (CleanStaleSourceClients every 10 s, 2-4 runs, clients streaming every 0.5-2.4 s or going silent, another group member updating right after a run); priorities from '
         '{0,1,99,100,101,199,200}+palette (+201/255 rarely), clock steps {0,1,2499999,2500000,2500001,...} '
         'including steps aimed at ts+2.5s-1/+0/+1 of an existing source, stamps equal/older/newer than the clock '
         'and unset, frame lengths {0,1..5,..,511,512,513}; class = set of merge outcomes reached '
@@ -391,7 +441,7 @@ ASSUMPTIONS = ['operator new does not fail',
                'acks of UpdateDmxData arrive through the stub in issue order; sink and source clients are ordered by object address; the harness allocates clients in one '
                'block so that address order is id order']
 TRUSTED = ['modelled rather than verified: Universe.cpp MergeAll/HTPMergeSources/UpdateDependants/PortDataChanged/'
-           'SourceClientDataChanged/CleanStaleSourceClients/SetDMX/SetMergeMode/Add*/Remove*, DmxSource IsSet/IsActive, BasicInputPort::DmxChanged/'
+           'SourceClientDataChanged/CleanStaleSourceClients/SetDMX/SetMergeMode/Add*/Remove*, PortManager::SetPriorityStatic/SetPriorityInherit, DmxSource IsSet/IsActive, BasicInputPort::DmxChanged/'
            'SetPriority, Client::DMXReceived/SourceData',
            'DmxBuffer through its value semantics only (Set caps at 512 slots, HTPMerge = slot-wise max, longer tail '
            'kept); the copy-on-write implementation is the subject of C02',
